@@ -17,7 +17,7 @@ from harness.core import q, z, zlit, coq_list, coq_bool, coq_opt
 PID = "C18"
 GEN_GROUPS = ["Analysis", "Battery"]
 TARGETS = ["coq/Props/C18.vo", "coq/Model/AnalysisQ.vo"]
-CASES = {"quick": 160, "thorough": 3000}
+CASES = {"quick": 160, "thorough": 2000}
 SHARD = 10
 CORR_HEADER = ("From Coq Require Import ZArith QArith List.\n"
                "From ACN Require Import Base.Num Model.Ledger Model.LedgerQ Model.Analysis Model.AnalysisQ.\n"
@@ -275,9 +275,8 @@ def make_case(inp):
 def gen_cases(rng, n, tier):
     cases = []
     while len(cases) < n:
-        c = make_case(gen_input(rng, tier))
-        if c is not None:
-            cases.append(c)
+        inputs = [gen_input(rng, tier) for _ in range(n - len(cases))]
+        cases.extend(c for c in c02.pmap(make_case, inputs) if c is not None)
     return cases
 
 
